@@ -668,3 +668,22 @@ def run(ctx):
         "edges whose two faces have identical corner sets (coincident centres) and all-constant rows under normalisation (0/0) are outside the property and not judged",
         "the edge is identified by the grid's own edge_node_connectivity row (that the table is an edge table of the mesh is re-checked here)",
     ]
+
+
+def replay(path):
+    """./check C16 --replay <file>: re-run and re-judge the cases of a replay file."""
+    import shutil
+
+    from harness.core import Ctx
+
+    with open(path) as fh:
+        data = json.load(fh)
+    cases = [v["replay"] for v in data["cases"] if v.get("replay")]
+    attach_source_tables(cases)
+    ctx = Ctx(PROP, "replay", 0)
+    items = [record_case(c) for c in cases]
+    failed, _ = process(ctx, cases, items)
+    for rid, cl in failed.items():
+        print("REPLAY %s: failed %s" % (rid, sorted(cl)))
+    shutil.rmtree(ctx.work, ignore_errors=True)
+    return 1 if ctx.violations else 0
